@@ -2,7 +2,11 @@ module verifharness
 
 go 1.23.4
 
-require github.com/dominant-strategies/go-quai v0.0.0
+require (
+	github.com/btcsuite/btcd/btcec/v2 v2.3.2
+	github.com/dominant-strategies/go-quai v0.0.0
+	google.golang.org/protobuf v1.36.6
+)
 
 require (
 	github.com/DataDog/zstd v1.4.5 // indirect
@@ -11,7 +15,6 @@ require (
 	github.com/benbjohnson/clock v1.3.5 // indirect
 	github.com/beorn7/perks v1.0.1 // indirect
 	github.com/btcsuite/btcd v0.24.2 // indirect
-	github.com/btcsuite/btcd/btcec/v2 v2.3.2 // indirect
 	github.com/btcsuite/btcd/btcutil v1.1.6 // indirect
 	github.com/btcsuite/btcd/chaincfg/chainhash v1.1.0 // indirect
 	github.com/btcsuite/btclog v0.0.0-20170628155309-84c8d2346e9f // indirect
@@ -92,7 +95,6 @@ require (
 	golang.org/x/exp v0.0.0-20231006140011-7918f672742d // indirect
 	golang.org/x/sys v0.33.0 // indirect
 	golang.org/x/text v0.25.0 // indirect
-	google.golang.org/protobuf v1.36.6 // indirect
 	gopkg.in/yaml.v3 v3.0.1 // indirect
 	lukechampine.com/blake3 v1.2.1 // indirect
 	lukechampine.com/uint128 v1.3.0 // indirect
